@@ -4,11 +4,11 @@
 # (4) demo FAILS with the patch, (5) run the /verif check against /repo with the patch applied and record whether it is caught.
 id=$1; name=${2:-$1}
 export GOFLAGS=-mod=mod GOPROXY=off GOSUMDB=off GOTOOLCHAIN=local
-src=/tmp/seed/$id.out
+src=${SEED_SRC:-/tmp/seed/$id.out}
 wt=/tmp/confirm_$name
 log=/tmp/confirm_$name.log
 : > $log
-cd /repo && git worktree remove --force $wt 2>/dev/null; git worktree add -q --detach $wt 5132009 || exit 2
+cd /repo && git worktree remove --force $wt 2>/dev/null; git worktree add -q --detach $wt ${SEED_BASE:-5132009} || exit 2
 cd $wt
 # place demo files
 place() {
@@ -27,7 +27,7 @@ for hint in ['PLACEMENT.txt','placement.txt','README.md','README.txt','README']:
     if os.path.exists(p):
         for m in re.findall(r'([A-Za-z0-9_./-]*/'+re.escape(base)+r')', open(p).read()):
             if not m.startswith('/'): dest=m
-            elif '/tmp/seed/' in m: dest=re.sub(r'^/tmp/seed/C\d+/','',m)
+            elif '/tmp/seed' in m: dest=re.sub(r'^/tmp/seed2?/C\d+(\.out/demo)?/','',m)
 if dest is None:
     meta=json.load(open(os.path.join(src,'meta.json')))
     txt=json.dumps(meta)
@@ -70,9 +70,9 @@ echo "== demo with patch" >> $log
 echo "exit=$r1" >> $log
 cd /repo && git worktree remove --force $wt
 # check against /repo
-cp /verif/evidence/$id.json /tmp/confirm_$name.evidence.bak 2>/dev/null
-cd /repo && git apply $src/patch.diff && (cd /verif && ./check $id quick > /tmp/confirm_$name.check 2>&1; echo "check-exit=$?" >> $log); git -C /repo checkout -- .
-cp /tmp/confirm_$name.evidence.bak /verif/evidence/$id.json 2>/dev/null
+cp /verif/evidence/${id:0:3}.json /tmp/confirm_$name.evidence.bak 2>/dev/null
+cd /repo && git apply $src/patch.diff && (cd /verif && ./check ${id:0:3} quick > /tmp/confirm_$name.check 2>&1; echo "check-exit=$?" >> $log); git -C /repo checkout -- .
+cp /tmp/confirm_$name.evidence.bak /verif/evidence/${id:0:3}.json 2>/dev/null
 grep -E "FAILED|UNDECIDED|VACUOUS|violations" /tmp/confirm_$name.check | cut -c1-200 >> $log
 echo "RESULT $name: demo_without=$r0 existing_tests=$bt demo_with=$r1 $(grep check-exit $log)"
 if [ $r0 -eq 0 ] && [ $bt -eq 0 ] && [ $r1 -ne 0 ]; then
